@@ -3,6 +3,7 @@ package engb
 import (
 	"encoding/json"
 	"fmt"
+	"os"
 	"runtime"
 	"sort"
 	"strings"
@@ -347,7 +348,9 @@ func (r *run) release(c *call) {
 	w.mongo.SetOwner(callOwner(c))
 	req := c.decodeReq()
 	r.mon.onRequest(r, c, req)
+	owner := callOwner(c)
 	go func() {
+		simmongo.RegisterOwner(owner)
 		res := r.serve(inst, c, req)
 		w.tr.mu.Lock()
 		if c.state == "running" {
@@ -537,11 +540,21 @@ func (r *run) pump(f *focus, g *kernel.Rng, faults []MongoFault, stopAnswered bo
 		case "mqtt":
 			r.logf("  deliver notification %s to %s", string(it.d.payload), it.d.to.name)
 			r.trace.Str("mqtt")
-			w.br.deliver(it.d, false)
+			r.deliverNotification(it.d)
 		}
 		w.tick(w.smallLatency())
 	}
 	r.harness("pump did not terminate")
+}
+
+// hasPending: are database commands of this owner waiting for an answer?
+func (r *run) hasPending(owner string) bool {
+	for _, p := range r.w.mongo.PendingList() {
+		if p.Owner == owner {
+			return true
+		}
+	}
+	return false
 }
 
 func (r *run) ownerAnswered(owner string) bool {
@@ -575,6 +588,9 @@ func (r *run) hang(f *focus) {
 	buf := make([]byte, 1<<16)
 	n := runtime.Stack(buf, true)
 	stacks := string(buf[:n])
+	if os.Getenv("VERIF_DUMP") != "" {
+		fmt.Fprintln(os.Stderr, stacks)
+	}
 	site := "unknown"
 	for _, blk := range strings.Split(stacks, "\n\n") {
 		if strings.Contains(blk, "orda-io/orda/server/") && (strings.Contains(blk, "chan receive") || strings.Contains(blk, "chan send") || strings.Contains(blk, "select") || strings.Contains(blk, "sync.")) {
@@ -613,3 +629,47 @@ func statusCode(err error) codes.Code {
 }
 
 var _ = model.PushPullBitNormal
+
+// deliverNotification hands one notification to its subscriber and checks that a client does not
+// react to a notification it caused itself (C18).
+func (r *run) deliverNotification(d *mqttDelivery) {
+	w := r.w
+	a := r.actorByName(d.to.name)
+	var n notif
+	own := false
+	if a != nil && json.Unmarshal(d.payload, &n) == nil && n.CUID == a.cuid {
+		own = true
+	}
+	idle := false
+	before := 0
+	if own {
+		idle = true
+		for _, x := range a.dts {
+			if x.dt.NeedPush() {
+				idle = false
+			}
+		}
+		for _, c := range w.tr.calls {
+			if c.client == a.name {
+				before++
+				if c.state != "finished" {
+					idle = false
+				}
+			}
+		}
+	}
+	w.br.deliver(d, false)
+	if own && idle {
+		synctest.Wait()
+		after := 0
+		for _, c := range w.tr.calls {
+			if c.client == a.name {
+				after++
+			}
+		}
+		r.probe("own-notification-delivered")
+		if after != before {
+			r.fail("notify", "C18.own-notification-ignored", "caused-a-request", "%s received the notification %s caused by its own push and, with nothing to push, sent a request to the server", a.name, string(d.payload))
+		}
+	}
+}
